@@ -555,3 +555,29 @@ Lemma race_schedule_locked :
   let st := run guard_locked [0; 1; 0; 1; 0; 0; 1; 1; 1; 1; 1] (init guard_locked two_first_calls) in
   log st = [EvRefused 1; EvOk 0] /\ owner st = Some 0.
 Proof. vm_compute. split; reflexivity. Qed.
+
+(* ------------------------------------------------------------------------------------------- *)
+(* why one statement per step loses nothing                                                     *)
+(* ------------------------------------------------------------------------------------------- *)
+(* Every micro-step of the semantics executes the head of exactly one statement, and the head of a statement
+   reads or writes the shared attribute at most once.  A finer interleaving (between the bytecodes of one
+   statement head) can therefore only reorder thread-local work around that single access: it has the same
+   effect on the shared state as the statement-level step that contains the access.  (The translator checks
+   the syntactic counterpart: active_in_thread occurs exactly once in the head of each guard statement.) *)
+Lemma statement_heads_access_once : forall s, head_accesses s <= 1.
+Proof. destruct s; simpl; auto. Qed.
+
+Lemma step_changes_owner_only_by_set : forall prog t st,
+  owner (fst (step prog t st)) <> owner st ->
+  exists k, t_cont (thr st t) = FStmt GSet :: k.
+Proof.
+  intros prog t st H. unfold step in H.
+  destruct (t_cont (thr st t)) as [| f k] eqn:E; simpl in H; [now elim H |].
+  destruct f as [s |].
+  - destruct s; simpl in H;
+      try (unfold finish in H; match type of H with context [match ?x with _ => _ end] => destruct x end; simpl in H; now elim H).
+    + eauto.
+    + destruct (lockh st); simpl in H; [now elim H |].
+      unfold finish in H. destruct (frames body0 ++ FRelease :: k); simpl in H; now elim H.
+  - unfold finish in H. destruct k; simpl in H; now elim H.
+Qed.
